@@ -37,6 +37,9 @@ type Engine struct {
 	mu           sync.Mutex
 	DynCallHook  DynHook
 	Nondet       map[string]bool
+	// InferPatterns adds explicit triggers (map-membership atoms) to universally quantified
+	// spec formulas. Off by default: the solvers' own trigger selection proved more robust.
+	InferPatterns bool
 }
 
 // Load loads the given package patterns of /repo (with the verif tag) and
